@@ -15,7 +15,7 @@ import z3
 
 from .values import (
     BoundMethod, BuiltinVal, ClassVal, Closure, EnumVal, ExcVal, FuncVal, HDict, HInst, HList, HSymMap, HexStr,
-    ModuleVal, Opaque, Ref, Rope, SuperVal, SymBytes, SymSeq, Unsupported, is_intlike, is_sym, is_symbool, is_symint,
+    LoweredSeq, ModuleVal, Opaque, Ref, Rope, SuperVal, SymBytes, SymSeq, Unsupported, is_intlike, is_sym, is_symbool, is_symint,
     to_z3bool, to_z3int,
 )
 
@@ -388,8 +388,10 @@ def equal(I, a, b, st, node=None):
         return to_z3int(a) == to_z3int(b)
     if isinstance(a, str) and isinstance(b, str):
         return a == b
-    if isinstance(a, SymSeq) and a.kind == "str" and isinstance(b, str):
+    if isinstance(a, (SymSeq, LoweredSeq)) and a.kind == "str" and isinstance(b, str):
         a, b = b, a
+    if isinstance(a, str) and isinstance(b, LoweredSeq):
+        return symstr_equals(b, a)
     if isinstance(a, str) and isinstance(b, SymSeq) and b.kind == "str":
         if is_sym(b.length):
             r = to_z3int(b.length) == len(a)
@@ -492,6 +494,13 @@ def contains(I, container, item, st, node=None):
         items = list(container) if isinstance(container, bytes) else list(container.items)
     else:
         raise Unsupported(f"membership in {container!r}", node)
+    if isinstance(item, (SymSeq, LoweredSeq)) and item.kind == "str":
+        r = False
+        for x in items:
+            if isinstance(x, str):
+                e = symstr_equals(item, x)
+                r = I.disj(r, e)
+        return V(r, st)
     r = False
     for x in items:
         if isinstance(x, Ref) or isinstance(item, Ref):
@@ -545,6 +554,21 @@ def str_equal(seq, text):
     return r
 
 
+def symstr_equals(seq, text):
+    """(possibly symbolic-length) symbolic string == concrete text"""
+    n = seq.length
+    if not is_sym(n):
+        if n != len(text):
+            return False
+        r = True
+    else:
+        r = to_z3int(n) == len(text)
+    for k, c in enumerate(text):
+        e = seq.at(k) == ord(c)
+        r = e if r is True else z3.And(r, e)
+    return r
+
+
 def keys_cond(key, ks):
     ks = sorted(ks)
     runs = []
@@ -561,6 +585,20 @@ def do_getitem(I, c, i, st, node=None):
     if isinstance(c, Ref):
         o = I.hget(st, c)
         if isinstance(o, HDict):
+            if isinstance(i, SymChar):
+                out = []
+                conds = []
+                for k, v in o.items.items():
+                    if isinstance(k, str) and len(k) == 1:
+                        cond = i.code == ord(k)
+                        conds.append(cond)
+                        for b, s2 in I.split(cond, st.fork()):
+                            if b:
+                                out.append(("val", v, s2))
+                for b, s2 in I.split(z3.Not(z3.Or(*conds)) if conds else True, st.fork()):
+                    if b:
+                        out.append(("exc", I.mkexc("KeyError", "symbolic character"), s2))
+                return out
             if isinstance(i, SymSeq) and not is_sym(i.length):
                 out = []
                 conds = []
@@ -1147,6 +1185,10 @@ def builtin_int(I, args, kwargs, st, node=None):
 
 
 def call_method(I, typ, meth, recv, args, kwargs, st, node=None):
+    if typ == "str" and isinstance(recv, (SymSeq, LoweredSeq)):
+        if meth == "lower":
+            return V(LoweredSeq(recv) if isinstance(recv, SymSeq) else recv, st)
+        raise Unsupported(f"str.{meth} on a symbolic string", node)
     if typ == "str" and isinstance(recv, str):
         if meth in ("lower", "upper", "strip", "startswith", "endswith", "replace", "split", "ljust", "rjust", "format",
                     "join", "isdigit", "find", "rstrip", "lstrip", "splitlines", "count", "index"):
